@@ -32,7 +32,7 @@ pub fn prop() -> Prop {
          result has exactly the provided-or-defaulted declared variables with the reference's coerced values. \
          Non-trivial: some variable type has a list or an input object; distinct by operation + variables + schema text.",
     )
-    .random("coerce", check, |t| if t == Tier::Quick { 200_000 } else { 2_500_000 }, |t| if t == Tier::Quick { 700 } else { 1000 })
+    .random("coerce", check, |t| if t == Tier::Quick { 500_000 } else { 5_000_000 }, |t| if t == Tier::Quick { 700 } else { 1000 })
     .text(check_text)
     .assumptions(&[
         "apollo's documented scalar rules are the oracle: Int = integer JSON number within 32 bits; Float = any float-typed JSON number, integer-typed ones only up to 2^53-1 in magnitude (CHANGELOG 1.31.0); ID = string or integer, kept as transported; no string->number/boolean coercion; custom scalars accept any JSON value unchanged; enums are JSON strings",
@@ -126,7 +126,10 @@ fn gen_case(bytes: &[u8]) -> Case {
     let mut defs: Vec<VarDef> = vec![];
     for i in 0..n {
         let ty = var_type(&mut c, &pre);
+        // value_for can emit a null item for a non-null inner list type (`[[T]!] = [null]`), which is
+        // not a valid literal: such defaults are dropped
         let default = if c.bool(100) { Some(gschema::value_for(&mut c, &ty, &pre.types, 2)) } else { None };
+        let default = default.filter(|d| !matches!(Coercer::new(&pre).coerce_literal(&ty, d, None, "$"), Err(Fail::Err(_))));
         defs.push(VarDef { name: ["a", "b", "c", "d"][i].to_string(), ty, default, directives: vec![] });
     }
     // probe field on the query root: one argument per variable, of exactly the variable's type
@@ -372,6 +375,44 @@ fn evaluate(sdl: &str, schema: &RefSchema, op_text: &str, defs: &[VarDef], vars:
                 }
             }
             ctx.pick_failure(fails)
+        }
+    }
+}
+
+#[cfg(test)]
+mod tests {
+    use super::*;
+
+    /// Development aid: `cargo test --release c28::tests::explore -- --ignored --nocapture`
+    #[test]
+    #[ignore]
+    fn explore() {
+        let (mut shown_d, mut shown_v) = (0, 0);
+        for i in 0..20000u64 {
+            let bytes = crate::runner::gen_case(5, "C28", 0, i, 700);
+            let case = gen_case(&bytes);
+            let spec = Coercer::new(&case.schema);
+            if let Err(Fail::Unspecified(r)) = spec.coerce_variable_values(&case.defs, &case.vars) {
+                if r.code == "invalid-default-value" && shown_d < 12 {
+                    shown_d += 1;
+                    for d in &case.defs {
+                        if let Some(def) = &d.default {
+                            let r = spec.coerce_literal(&d.ty, def, None, "$");
+                            if r.is_err() {
+                                println!("DEFAULT {} = {} -> {:?}", d.ty.print(), printer::print_value(def), r);
+                            }
+                        }
+                    }
+                    println!("  at {} in {}", r.path, case.op_text);
+                }
+            }
+            let a_schema = apollo_compiler::Schema::parse_and_validate(&case.sdl, "s.graphql").unwrap();
+            if let Err(e) = apollo_compiler::ExecutableDocument::parse_and_validate(&a_schema, &case.op_text, "op.graphql") {
+                if shown_v < 12 {
+                    shown_v += 1;
+                    println!("REJECTED {}\n{}", case.op_text, e.errors);
+                }
+            }
         }
     }
 }
